@@ -34,7 +34,10 @@ def main():
             if fn is None:
                 out.update(status="no-native-replay", desc="contract has no native_call")
             else:
-                holds, desc = fn(req["model"])
+                try:
+                    holds, desc = fn(req["model"])
+                except Exception as e:  # the real function raised something the contract does not allow
+                    holds, desc = False, f"unexpected {type(e).__name__}: {e} | {traceback.format_exc(limit=3)}"
                 out.update(status="holds" if holds else "fails", desc=str(desc), model=req["model"])
         elif req["mode"] == "search":
             gen = getattr(target, "native_search", None)
@@ -45,7 +48,10 @@ def main():
                 out.update(status="holds", desc="")
                 for m in gen(req.get("budget", 20000)):
                     n += 1
-                    holds, desc = fn(m)
+                    try:
+                        holds, desc = fn(m)
+                    except Exception as e:
+                        holds, desc = False, f"unexpected {type(e).__name__}: {e} | {traceback.format_exc(limit=3)}"
                     if not holds:
                         out.update(status="fails", desc=str(desc), model=m)
                         break
